@@ -45,7 +45,7 @@ Print Assumptions C30_div_native_exact.
 Theorem C30_round_div_is_floor_ceil : forall n d, 0 < d ->
   (round_div true n d * d <= n < (round_div true n d + 1) * d) /\
   ((round_div false n d - 1) * d < n <= round_div false n d * d).
-Proof. intros n d H. split; [exact (floor_div_spec n d H) | exact (ceil_div_spec n d H)]. Qed.
+Proof. exact round_div_floor_ceil. Qed.
 Print Assumptions C30_round_div_is_floor_ceil.
 
 (* the portable path equals the native 128-bit path (both equal the exact value) *)
@@ -62,7 +62,7 @@ Theorem C30_evaluate_fee_exact : forall round_down fee size at_size,
   is_i64 (round_div round_down (fee * at_size) size) ->
   evaluate_fee round_down fee size at_size = round_div round_down (fee * at_size) size /\
   evaluate_fee_fallback round_down fee size at_size = round_div round_down (fee * at_size) size.
-Proof. intros. split; [apply evaluate_fee_spec | apply evaluate_fee_fallback_spec]; assumption. Qed.
+Proof. exact evaluate_fee_both_spec. Qed.
 Print Assumptions C30_evaluate_fee_exact.
 
 (* "This is guaranteed to be the case when 0 <= at_size <= this->size" *)
@@ -82,7 +82,7 @@ Print Assumptions C30_byratio_is_rational_order.
 Theorem C30_byratio_cross_product : forall a b, ff_ok a -> ff_ok b ->
   byratio_cmp a b = (fst a * snd b ?= fst b * snd a) /\
   byratio_cmp_fallback a b = (fst a * snd b ?= fst b * snd a).
-Proof. intros a b Ha Hb. split; [apply byratio_cmp_spec | apply byratio_cmp_fallback_spec]; assumption. Qed.
+Proof. exact byratio_cross_product. Qed.
 Print Assumptions C30_byratio_cross_product.
 
 Theorem C30_byratio_operators : forall a b, ff_ok a -> ff_ok b ->
